@@ -1,4 +1,4 @@
 SPECIFICATION MCSpec
-CONSTANT MaxN = 40
-INVARIANTS Excl Cons Complete Minimal
+CONSTANT MaxN = 270
+INVARIANTS ExclAt ConsAt CompleteAt Minimal
 CHECK_DEADLOCK FALSE
